@@ -71,6 +71,13 @@ mask_t& mask_t::assign_glob(const string& pat)
         re_pat += pat[i];
       break;
 
+    case '.': case '+': case '(': case ')': case '|': case '{': case '}':
+      // these stand for themselves in a file name, not for what they mean
+      // in a regular expression
+      re_pat += '\\';
+      re_pat += pat[i];
+      break;
+
     case '\\':
       if (i + 1 < len) {
         re_pat += pat[++i];
